@@ -124,11 +124,11 @@ static unsigned char *vc_exact_copy(const unsigned char *src,size_t n){ unsigned
 /* ---------------------------------------------------------------- signal families
  * A generator with persistent phase so consecutive frames form one continuous signal. */
 enum { VS_SILENCE, VS_SQUARE, VS_WHITE, VS_BANDNOISE, VS_MULTITONE, VS_SWEEP, VS_VOICED, VS_CLICKS, VS_LEVELDIFF,
-       VS_MONO_IN_STEREO, VS_ANTIPHASE, VS_DC, VS_DITHER, VS_SPEECHLIKE, VS_NFINITE /* count of finite families */,
+       VS_MONO_IN_STEREO, VS_ANTIPHASE, VS_DC, VS_DITHER, VS_SPEECHLIKE, VS_HFTONE, VS_NFINITE /* count of finite families */,
        VS_DENORMAL=VS_NFINITE, VS_NAN, VS_INF, VS_HUGE, VS_NALL };
-static const char *vs_names[]={"silence","square","white","bandnoise","multitone","sweep","voiced","clicks","leveldiff","monoinstereo","antiphase","dc","dither","speechlike","denormal","nan","inf","huge"};
+static const char *vs_names[]={"silence","square","white","bandnoise","multitone","sweep","voiced","clicks","leveldiff","monoinstereo","antiphase","dc","dither","speechlike","hftone","denormal","nan","inf","huge"};
 typedef struct { int kind, Fs, ch; double t; double ph[8]; double f[8]; float lp[2]; float amp; vc_rng r; double f0; double env; long nsamp; } vc_siggen;
-static void vs_init(vc_siggen *g,int kind,int Fs,int ch,float amp,uint64_t seed){ memset(g,0,sizeof *g); g->kind=kind; g->Fs=Fs; g->ch=ch; g->amp=amp; vc_rng_seed(&g->r,seed); for(int i=0;i<8;i++){ g->f[i]=60.0*pow(1.9,i)*(0.8+0.4*vc_unit(&g->r)); if(g->f[i]>0.45*Fs) g->f[i]=0.45*Fs*vc_unit(&g->r); } g->f0=90+vc_unit(&g->r)*200; }
+static void vs_init(vc_siggen *g,int kind,int Fs,int ch,float amp,uint64_t seed){ memset(g,0,sizeof *g); g->kind=kind; g->Fs=Fs; g->ch=ch; g->amp=amp; vc_rng_seed(&g->r,seed); for(int i=0;i<8;i++){ g->f[i]=60.0*pow(1.9,i)*(0.8+0.4*vc_unit(&g->r)); if(g->f[i]>0.45*Fs) g->f[i]=0.45*Fs*vc_unit(&g->r); } g->f0=90+vc_unit(&g->r)*200; if(kind==VS_HFTONE) g->f[7]=(0.27+0.19*vc_unit(&g->r))*Fs; }
 /* fills n frames (interleaved ch) of float in nominal [-1,1]*amp */
 static void vs_fill(vc_siggen *g,float *out,int n){ int ch=g->ch; double Fs=g->Fs; const double TP=6.283185307179586;
   for(int i=0;i<n;i++){ double t=g->t; float v=0, v2=0; int k=g->kind;
@@ -141,6 +141,7 @@ static void vs_fill(vc_siggen *g,float *out,int n){ int ch=g->ch; double Fs=g->F
     case VS_SWEEP: { double T=3.0, f1=50, f2=0.45*Fs; double tt=fmod(t,T); double phs=TP*f1*T/log(f2/f1)*(pow(f2/f1,tt/T)-1); v=(float)(0.7*sin(phs)); v2=(float)(0.7*sin(phs+1.0)); } break;
     case VS_VOICED: case VS_SPEECHLIKE: { double f0=g->f0*(1+0.15*sin(TP*0.7*t)); g->ph[0]+=f0/Fs; if(g->ph[0]>=1) g->ph[0]-=1; double s=0; for(int h=1;h<=12;h++){ double fh=h*f0; if(fh>0.45*Fs) break; double a=1.0/(1+pow((fh-600)/500,2))+0.5/(1+pow((fh-1800)/700,2)); s+=a*sin(TP*h*g->ph[0]); }
         double env=1; if(k==VS_SPEECHLIKE){ double sy=fmod(t*4.0,1.0); env=0.15+0.85*pow(sin(3.14159265*sy),2); } v=(float)(0.3*s*env)+(float)(0.001*(2*vc_unit(&g->r)-1)); v2=0.8f*v+(float)(0.001*(2*vc_unit(&g->r)-1)); } break;
+    case VS_HFTONE: /* one loud isolated tone near the top of the band over a very quiet floor */ v=(float)sin(TP*g->f[7]*t)+0.0005f*(float)(2*vc_unit(&g->r)-1); v2=(float)sin(TP*g->f[7]*t+0.3)+0.0005f*(float)(2*vc_unit(&g->r)-1); break;
     case VS_CLICKS: v=(vc_below(&g->r,(uint32_t)(Fs/7))==0)?((vc_u32(&g->r)&1)?1.f:-1.f):0.002f*(float)(2*vc_unit(&g->r)-1); v2=v; break;
     case VS_LEVELDIFF: v=(float)(0.8*sin(TP*g->f[3]*t)); v2=0.1f*v; break;
     case VS_MONO_IN_STEREO: for(int j=0;j<4;j++) v+=(float)(0.2*sin(TP*g->f[j+1]*t)); v2=v; break;
